@@ -378,6 +378,7 @@ func (w *world) doStep(i int, stp Step, sm *sessModel) bool {
 	when := fmt.Sprintf("step %d (%s)", i, stp)
 	c := w.c
 	wasNeg := sm.negotiated != nil
+	first := !sm.gotMsg
 	switch stp.K {
 	case "halfclose", "cancel", "fail":
 		var hg *drive.Hang
@@ -489,6 +490,9 @@ func (w *world) doStep(i int, stp Step, sm *sessModel) bool {
 			if otherLive >= 1 {
 				w.st.ViolWith2Open++
 			}
+			if !first {
+				w.st.ViolNotFirst++
+			}
 			if c.Proto {
 				if accept && !tolerate {
 					w.fail("valid-params-rejected", "%s: supported, consistent parameters as first message but the RPC ended with %v", when, sm.x.Err())
@@ -541,6 +545,9 @@ func (w *world) doStep(i int, stp Step, sm *sessModel) bool {
 			if otherLive >= 1 {
 				w.st.ViolWith2Open++
 			}
+			if !first {
+				w.st.ViolNotFirst++
+			}
 			if c.Proto || c.Election {
 				if ok, got := statusMatches(sm.x.Err(), ws); !ok {
 					w.fail("wrong-status:elec", "%s: want %s, got %s (%v)", when, wantStr(ws), got, sm.x.Err())
@@ -585,6 +592,22 @@ func (w *world) doStep(i int, stp Step, sm *sessModel) bool {
 					w.st.HandoverHeld++
 				}
 			}
+			if w.prim != stp.S {
+				// fail-over: the server stops processing the previous primary's
+				// pending operations and must never answer them to the new primary
+				w.m.Held = map[uint64]*model.Held{}
+				w.owner = map[uint64]int{}
+				if w.prim >= 0 {
+					// operations of the previous primary that are still
+					// unanswered may stay so: its session lost the primary role
+					old := w.sess[w.prim]
+					for oid := range old.sent {
+						if len(old.results[oid]) == 0 {
+							old.answered[oid] = true
+						}
+					}
+				}
+			}
 			w.cur = cp(id)
 			w.prim = stp.S
 		}
@@ -619,6 +642,10 @@ func (w *world) doStep(i int, stp Step, sm *sessModel) bool {
 		}
 		if stp.K == "elec" && !sm.ended {
 			after.elec, after.master = before.elec, before.master
+			if len(w.m.Held) == 0 && len(after.held) == 0 {
+				// a fail-over discards the previous primary's held operations
+				before.held = after.held
+			}
 		}
 		w.sameSnap(before, after, when)
 	}
@@ -928,7 +955,7 @@ func (w *world) finalAccounting() {
 			seq := sm.results[id]
 			if len(seq) == 0 {
 				_, held := w.m.Held[id]
-				if held || sm.ended || idx != w.prim {
+				if held || sm.ended || idx != w.prim || sm.answered[id] {
 					continue
 				}
 				w.fail("never-answered", "operation %d on session %d (still primary, stream open, not held in the model) never received a result", id, idx)
